@@ -454,6 +454,53 @@ table "t" {
 }`},
 }
 
+// generated scenarios: every subset of {add table, add column, b NOT NULL (rebuild, fails on the NULL row),
+// unique index on b (fails on the duplicate rows), drop table} holding at least one failing change;
+// one-change plans whose single change is several statements are in there.
+var genFlags = []string{"first", "colc", "notnull", "uniq", "dropgone"}
+
+func init() {
+	for m := 1; m < 1<<len(genFlags); m++ {
+		on := map[string]bool{}
+		var names []string
+		for i, f := range genFlags {
+			if m&(1<<i) != 0 {
+				on[f] = true
+				names = append(names, f)
+			}
+		}
+		if !on["notnull"] && !on["uniq"] {
+			continue
+		}
+		var b strings.Builder
+		b.WriteString("schema \"main\" {}\n")
+		if on["first"] {
+			b.WriteString("table \"first\" {\n  schema = schema.main\n  column \"id\" {\n    type = integer\n  }\n}\n")
+		}
+		b.WriteString("table \"t\" {\n  schema = schema.main\n  column \"id\" {\n    type = integer\n  }\n")
+		fmt.Fprintf(&b, "  column \"b\" {\n    type = text\n    null = %v\n  }\n", !on["notnull"])
+		if on["colc"] {
+			b.WriteString("  column \"c\" {\n    type = integer\n    null = true\n  }\n")
+		}
+		b.WriteString("  primary_key {\n    columns = [column.id]\n  }\n  index \"idx_b\" {\n    columns = [column.b]\n  }\n")
+		if on["uniq"] {
+			b.WriteString("  index \"uq_b\" {\n    unique = true\n    columns = [column.b]\n  }\n")
+		}
+		b.WriteString("}\n")
+		if !on["dropgone"] {
+			b.WriteString("table \"gone\" {\n  schema = schema.main\n  column \"id\" {\n    type = integer\n    null = true\n  }\n}\n")
+		}
+		scenarios["gen:"+strings.Join(names, "+")] = struct {
+			setup   []string
+			desired string
+		}{
+			setup: []string{"CREATE TABLE t (id integer NOT NULL PRIMARY KEY, b text)", "INSERT INTO t VALUES (1, NULL), (2, 'x'), (3, 'x')",
+				"CREATE INDEX idx_b ON t (b)", "CREATE TABLE gone (id integer)", "INSERT INTO gone VALUES (7)"},
+			desired: b.String(),
+		}
+	}
+}
+
 func evalSchema(c Case) (problems []string, skipped string) {
 	bad := func(f string, a ...any) { problems = append(problems, fmt.Sprintf(f, a...)) }
 	w, err := clih.NewWork()
